@@ -6,7 +6,23 @@ for ALL histories of operations (writes of scopes / sessions / records / the thr
 specification, owner and data-access changes, value-owner changes, record moves between sessions,
 deletions, net-asset-value writes, direct `RemoveSession` calls), ALL identifiers and EVERY
 record-name hash function `H` (no property of sha256 is assumed; names that collide under `H`
-are covered).  A rejected operation leaves the state unchanged (transaction rollback).
+are covered) and EVERY function `B` from address texts to accounts (nothing is assumed about
+bech32: two texts may denote the same account — lower-case and upper-case spelling — and the
+stored lists, the duplicate checks and the add/remove messages work on texts while index keys and
+the by-address queries work on accounts).  A rejected operation leaves the state unchanged
+(transaction rollback).
+
+OPEN FINDING C14-spec-owner-respelling-drops-index-entry: `indexContractSpecification` /
+`indexScopeSpecification` (x/metadata/keeper/specification.go:271-296, 495-549) diff the owner
+lists as TEXTS but build the index keys from the decoded accounts, adds first, removals second.
+Re-writing a specification with an owner re-spelled (`pb1…` -> `PB1…`) therefore sets and then
+deletes the same key: the by-owner lookup no longer lists a specification whose stored content
+names the account.  So of the two by-owner lookups of specifications only "nothing stale" is a
+theorem for all histories (part of `Inv`); "nothing missing" is proved for histories that use one
+spelling per account in specification owners (`ownerLookups_exact_partial`) and refuted in
+general (`contractSpecsForOwner_incomplete_witness`, `scopeSpecsForOwner_incomplete_witness`).
+The by-address lookup of SCOPES diffs accounts (scope.go:371-388) and is exact for all histories
+and all spellings (`scopesForAddress_exact`).
 
 The model is the CURRENT code, i.e. with the repair ab8bb51a7 ("fix: RemoveScope left sessions
 that never had a record"): `RemoveScope` removes the scope's remaining sessions after the record
@@ -21,49 +37,130 @@ theorems are the negation witnesses about that code (`removeScopePreFix` / `runP
 what the finding `C14-recordless-session-survives-scope-delete` (now fixed) replayed on the real
 keeper.  The address half of the property is in `PvProofs/C14Addr.lean`.
 -/
-import PvProofs.Lemmas.MdStoreMsgs
+import PvProofs.Lemmas.MdStoreOwners
 
 namespace PvProofs.C14
 open PvModel.MdStore PvProofs.MdLemmas
 
 /-! ### the invariant over all histories -/
 
-theorem inv_empty : FullInv State.empty := by
+theorem inv_empty (B : Addr → Addr) : FullInv B State.empty := by
   refine ⟨⟨?_, ?_, ?_, ?_, ?_, ?_, ?_, ?_, ?_, ?_, ?_⟩, ?_⟩ <;>
     simp [State.empty, KeysUnique, RecordsHaveSession, RecordsHaveScope, RecordsInSessionScope,
-      AddrScopeExact, SpecScopeExact, OwnerScopeSpecExact, CSpecScopeSpecExact, OwnerCSpecExact,
-      ValueOwnersHaveScope, NavsHaveScope, IdxExact, SessionsHaveScope]
+      AddrScopeExact, SpecScopeExact, OwnerScopeSpecSound, CSpecScopeSpecExact, OwnerCSpecSound,
+      ValueOwnersHaveScope, NavsHaveScope, IdxExact, IdxSound, IdxComplete, SessionsHaveScope]
 
 /-- `DeleteScope` (RemoveScope + RemoveNetAssetValues) preserves the full invariant -/
-theorem removeScope_ok (st : State) (id : UUID) (sc : Scope) (h : FullInv st)
+theorem removeScope_ok (B : Addr → Addr) (st : State) (id : UUID) (sc : Scope) (h : FullInv B st)
     (hsc : kget (·.id) st.scopes id = some sc) :
-    FullInv (removeNetAssetValues (removeScope st id) id) :=
+    FullInv B (removeNetAssetValues (removeScope B st id) id) :=
   ⟨(deleteScope_spec h.1 id sc hsc).1, (deleteScope_spec h.1 id sc hsc).2.2 h.2⟩
 
 /-- one operation (accepted or rejected) keeps the full invariant -/
-theorem inv_step (H : String → NameKey) (st : State) (op : Op) (h : FullInv st) :
-    FullInv (stepWith removeScope H st op) := by
+theorem inv_step (B : Addr → Addr) (H : String → NameKey) (st : State) (op : Op) (h : FullInv B st) :
+    FullInv B (stepWith B (removeScope B) H st op) := by
   unfold stepWith
   split
   · rename_i st' hr
-    exact ⟨applyOpWith_inv removeScope (fun st id sc hi hsc => (deleteScope_spec hi id sc hsc).1) H h.1 op hr,
-      applyOpWith_shs removeScope (fun st id sc hi hs hsc => (deleteScope_spec hi id sc hsc).2.2 hs) H h.1 h.2 op hr⟩
+    exact ⟨applyOpWith_inv (removeScope B) (fun st id sc hi hsc => (deleteScope_spec hi id sc hsc).1) H h.1 op hr,
+      applyOpWith_shs (removeScope B) (fun st id sc hi hs hsc => (deleteScope_spec hi id sc hsc).2.2 hs) H h.1 h.2 op hr⟩
   · exact h
 
-/-- After EVERY history, from any state that satisfies it: store keys are unique; every session
-and every record belongs to an existing scope; every record belongs to an existing session of
-its own scope; each of the five lookups lists exactly the (value, id) pairs the stored scopes /
-specifications name; value-owner coins and net asset values exist only for existing scopes. -/
-theorem refInv_run (H : String → NameKey) (st : State) (ops : List Op) (h : FullInv st) :
-    FullInv (run H st ops) := by
+/-- After EVERY history, from any state that satisfies it, whatever texts spell which account:
+store keys are unique; every session and every record belongs to an existing scope; every record
+belongs to an existing session of its own scope; the by-address lookup of scopes lists exactly
+the (account, scope) pairs where a stored owner / data-access text denotes the account; the
+by-specification lookup of scopes and the by-contract-specification lookup of scope
+specifications list exactly the pairs the stored content names; the two by-owner lookups of
+specifications list nothing the stored content does not name; value-owner coins and net asset
+values exist only for existing scopes. -/
+theorem refInv_run (B : Addr → Addr) (H : String → NameKey) (st : State) (ops : List Op) (h : FullInv B st) :
+    FullInv B (run B H st ops) := by
   unfold run runWith
   induction ops generalizing st with
   | nil => exact h
-  | cons op t ih => exact ih _ (inv_step H st op h)
+  | cons op t ih => exact ih _ (inv_step B H st op h)
 
 /-- the same from the empty store: every reachable state -/
-theorem refInv_reachable (H : String → NameKey) (ops : List Op) : FullInv (run H State.empty ops) :=
-  refInv_run H State.empty ops inv_empty
+theorem refInv_reachable (B : Addr → Addr) (H : String → NameKey) (ops : List Op) :
+    FullInv B (run B H State.empty ops) :=
+  refInv_run B H State.empty ops (inv_empty B)
+
+/-! ### the by-owner lookups of specifications: complete when every account has one spelling -/
+
+theorem ownerComplete_empty (B : Addr → Addr) (P : Addr → Prop) : OwnerComplete B P State.empty := by
+  refine ⟨?_, ?_, ?_, ?_⟩ <;>
+    simp [State.empty, OwnerScopeSpecComplete, OwnerCSpecComplete, IdxComplete]
+
+/-- PARTIAL (the full statement — `OwnerComplete` after EVERY history — is false of the code:
+`contractSpecsForOwner_incomplete_witness`; missing: histories that re-spell a specification
+owner).  If the owner texts the history writes into specifications all satisfy a predicate `P` on
+which `B` is injective (no account is spelled in two ways), the two by-owner lookups of
+specifications miss nothing after the history. -/
+theorem ownerComplete_run_partial (B : Addr → Addr) (H : String → NameKey) (P : Addr → Prop)
+    (hinj : ∀ a a', P a → P a' → B a = B a' → a = a') (st : State) (ops : List Op)
+    (h : FullInv B st) (hc : OwnerComplete B P st) (hops : ∀ op ∈ ops, ∀ a ∈ op.specOwnerTexts, P a) :
+    OwnerComplete B P (run B H st ops) := by
+  unfold run runWith
+  induction ops generalizing st with
+  | nil => exact hc
+  | cons op t ih =>
+    refine ih _ (inv_step B H st op h) ?_ (fun o ho => hops o (List.mem_cons_of_mem _ ho))
+    unfold stepWith
+    split
+    · rename_i st' hr
+      exact applyOpWith_ownerComplete hinj (removeScope B) (fun st id => removeScope_specPart st id) H h.1 hc op
+        (hops op (List.mem_cons_self ..)) hr
+    · exact hc
+
+/-- PARTIAL (see `ownerComplete_run_partial`): for histories from the empty store that use one
+spelling per account in specification owners, both by-owner lookups of specifications are EXACT. -/
+theorem ownerLookups_exact_partial (B : Addr → Addr) (H : String → NameKey) (P : Addr → Prop)
+    (hinj : ∀ a a', P a → P a' → B a = B a' → a = a') (ops : List Op)
+    (hops : ∀ op ∈ ops, ∀ a ∈ op.specOwnerTexts, P a) :
+    OwnerScopeSpecExact B (run B H State.empty ops) ∧ OwnerCSpecExact B (run B H State.empty ops) := by
+  have h := refInv_reachable B H ops
+  have hc := ownerComplete_run_partial B H P hinj State.empty ops (inv_empty B) (ownerComplete_empty B P) hops
+  exact ⟨⟨h.1.ownerScopeSpec, hc.ownerScopeSpec⟩, ⟨h.1.ownerCSpec, hc.ownerCSpec⟩⟩
+
+/-- the hypotheses of the partial theorems are satisfiable non-trivially: with `B = id` (every
+text its own account) every history qualifies -/
+example (H : String → NameKey) (ops : List Op) :
+    OwnerScopeSpecExact id (run id H State.empty ops) ∧ OwnerCSpecExact id (run id H State.empty ops) :=
+  ownerLookups_exact_partial id H (fun _ => True) (fun _ _ _ _ e => e) ops (fun _ _ _ _ => trivial)
+
+/-- a `B` with two spellings of one account, for the witnesses: `A^` is account `A` -/
+def witnessB (a : Addr) : Addr := if a = "A^" then "A" else a
+
+/-- The history that loses a by-owner entry: write a contract specification owned by `A`, then
+write it again with the owner spelled `A^` (the same account). -/
+def respellWitness : List Op := [
+  .writeContractSpec { id := "c1", owners := ["A"] },
+  .writeContractSpec { id := "c1", owners := ["A^"] } ]
+
+/-- NEGATION WITNESS (current code; finding C14-spec-owner-respelling-drops-index-entry): after
+`respellWitness` — both writes accepted — the stored contract specification `c1` names account
+`A` (its owner text `A^` denotes it) but the by-owner lookup of account `A` lists nothing. -/
+theorem contractSpecsForOwner_incomplete_witness :
+    ¬ OwnerCSpecComplete witnessB (run witnessB id State.empty respellWitness) ∧
+    (run witnessB id State.empty respellWitness).contractSpecs = [{ id := "c1", owners := ["A^"] }] ∧
+    witnessB "A^" = "A" ∧
+    contractSpecsForOwner (run witnessB id State.empty respellWitness) "A" = [] ∧
+    contractSpecsForOwner (run witnessB id State.empty (respellWitness.take 1)) "A" = ["c1"] := by
+  decide
+
+/-- the same for scope specifications -/
+def respellWitnessP : List Op := [
+  .writeScopeSpec { id := "p1", owners := ["A", "B"], cspecs := [] },
+  .writeScopeSpec { id := "p1", owners := ["A^", "B"], cspecs := [] } ]
+
+theorem scopeSpecsForOwner_incomplete_witness :
+    ¬ OwnerScopeSpecComplete witnessB (run witnessB id State.empty respellWitnessP) ∧
+    (run witnessB id State.empty respellWitnessP).scopeSpecs = [{ id := "p1", owners := ["A^", "B"], cspecs := [] }] ∧
+    scopeSpecsForOwner (run witnessB id State.empty respellWitnessP) "A" = [] ∧
+    scopeSpecsForOwner (run witnessB id State.empty respellWitnessP) "B" = ["p1"] ∧
+    scopeSpecsForOwner (run witnessB id State.empty (respellWitnessP.take 1)) "A" = ["p1"] := by
+  decide
 
 /-- The history that broke the claim before the repair: write a scope and a session, never a
 record, delete the scope. -/
@@ -77,54 +174,67 @@ def orphanWitness : List Op := [
 /-- HISTORICAL NEGATION WITNESS (code before ab8bb51a7): "sessions always belong to an existing
 scope" failed after `orphanWitness` (every operation of which is accepted). -/
 theorem sessions_have_scope_false_before_fix :
-    ¬ SessionsHaveScope (runPreFix id State.empty orphanWitness) := by
+    ¬ SessionsHaveScope (runPreFix id id State.empty orphanWitness) := by
   decide
 
 /-- each operation of the witness history is accepted (the witness is not vacuous), and on the
 current code the same history leaves no session -/
 theorem orphanWitness_all_accepted :
-    (runPreFix id State.empty orphanWitness).sessions.map (·.id) = [⟨"s1", "x1"⟩] ∧
-    (runPreFix id State.empty orphanWitness).scopes = [] ∧
-    (runPreFix id State.empty (orphanWitness.take 4)).scopes.map (·.id) = ["s1"] ∧
-    (run id State.empty orphanWitness).sessions = [] ∧
-    (run id State.empty (orphanWitness.take 4)).sessions.map (·.id) = [⟨"s1", "x1"⟩] := by
+    (runPreFix id id State.empty orphanWitness).sessions.map (·.id) = [⟨"s1", "x1"⟩] ∧
+    (runPreFix id id State.empty orphanWitness).scopes = [] ∧
+    (runPreFix id id State.empty (orphanWitness.take 4)).scopes.map (·.id) = ["s1"] ∧
+    (run id id State.empty orphanWitness).sessions = [] ∧
+    (run id id State.empty (orphanWitness.take 4)).sessions.map (·.id) = [⟨"s1", "x1"⟩] := by
   decide
 
 /-! ### what the invariant says, in the property's words -/
 
 /-- Records always belong to an existing session OF AN EXISTING SCOPE, after every history. -/
-theorem record_has_session_and_scope (H : String → NameKey) (ops : List Op) :
-    ∀ r ∈ (run H State.empty ops).records,
-      (∃ x ∈ (run H State.empty ops).sessions, x.id = r.session ∧ x.id.scope = r.id.scope) ∧
-      (∃ sc ∈ (run H State.empty ops).scopes, sc.id = r.id.scope) := by
+theorem record_has_session_and_scope (B : Addr → Addr) (H : String → NameKey) (ops : List Op) :
+    ∀ r ∈ (run B H State.empty ops).records,
+      (∃ x ∈ (run B H State.empty ops).sessions, x.id = r.session ∧ x.id.scope = r.id.scope) ∧
+      (∃ sc ∈ (run B H State.empty ops).scopes, sc.id = r.id.scope) := by
   intro r hr
-  have h := (refInv_reachable H ops).1
+  have h := (refInv_reachable B H ops).1
   obtain ⟨x, hx, hxr⟩ := h.recSession r hr
   exact ⟨⟨x, hx, hxr, by rw [hxr]; exact h.recInScope r hr⟩, h.recScope r hr⟩
 
 /-- Sessions always belong to an existing scope, after every history. -/
-theorem session_has_scope (H : String → NameKey) (ops : List Op) :
-    ∀ x ∈ (run H State.empty ops).sessions, ∃ sc ∈ (run H State.empty ops).scopes, sc.id = x.id.scope :=
-  (refInv_reachable H ops).2
+theorem session_has_scope (B : Addr → Addr) (H : String → NameKey) (ops : List Op) :
+    ∀ x ∈ (run B H State.empty ops).sessions, ∃ sc ∈ (run B H State.empty ops).scopes, sc.id = x.id.scope :=
+  (refInv_reachable B H ops).2
 
-/-- The by-address lookup lists exactly the scopes whose stored owners or data-access list name
-the address. -/
-theorem scopesForAddress_exact (H : String → NameKey) (ops : List Op) (a : Addr) (id : UUID) :
-    id ∈ scopesForAddress (run H State.empty ops) a ↔
-      ∃ sc ∈ (run H State.empty ops).scopes, sc.id = id ∧ (a ∈ sc.owners ∨ a ∈ sc.dataAccess) := by
-  have h := idxExact_iff.mp ((refInv_reachable H ops).1).addrScope a id
+/-- The by-address lookup of an ACCOUNT lists exactly the scopes one of whose stored owner or
+data-access TEXTS denotes that account — after every history, whatever the spellings used, added
+or removed. -/
+theorem scopesForAddress_exact (B : Addr → Addr) (H : String → NameKey) (ops : List Op) (acct : Addr) (id : UUID) :
+    id ∈ scopesForAddress (run B H State.empty ops) acct ↔
+      ∃ sc ∈ (run B H State.empty ops).scopes, sc.id = id ∧
+        ∃ a, (a ∈ sc.owners ∨ a ∈ sc.dataAccess) ∧ B a = acct := by
+  have h := idxExact_iff.mp ((refInv_reachable B H ops).1).addrScope acct id
   simp only [scopesForAddress, List.mem_map, List.mem_filter, decide_eq_true_eq, Prod.exists]
   constructor
   · rintro ⟨a', id', ⟨hm, rfl⟩, rfl⟩
-    simpa [Scope.addrs] using h.mp hm
-  · intro hx
-    exact ⟨a, id, ⟨h.mpr (by simpa [Scope.addrs] using hx), rfl⟩, rfl⟩
+    obtain ⟨sc, hsc, e, hb⟩ := h.mp hm
+    obtain ⟨a, ha, rfl⟩ := List.mem_map.mp hb
+    exact ⟨sc, hsc, e, a, List.mem_append.mp ha, rfl⟩
+  · rintro ⟨sc, hsc, e, a, ha, rfl⟩
+    exact ⟨B a, id, ⟨h.mpr ⟨sc, hsc, e, List.mem_map.mpr ⟨a, List.mem_append.mpr ha, rfl⟩⟩, rfl⟩, rfl⟩
+
+/-- In particular: as long as one text naming the account stays in the stored scope, removing or
+replacing ANOTHER text of the same account (its upper-case spelling, say) keeps the scope in the
+account's by-address lookup. -/
+theorem scopesForAddress_keeps_named_account (B : Addr → Addr) (H : String → NameKey) (ops : List Op)
+    (sc : Scope) (hsc : sc ∈ (run B H State.empty ops).scopes) (a : Addr)
+    (ha : a ∈ sc.owners ∨ a ∈ sc.dataAccess) :
+    sc.id ∈ scopesForAddress (run B H State.empty ops) (B a) :=
+  (scopesForAddress_exact B H ops (B a) sc.id).mpr ⟨sc, hsc, rfl, a, ha, rfl⟩
 
 /-- The by-specification lookup lists exactly the scopes whose stored specification id is it. -/
-theorem scopesForScopeSpec_exact (H : String → NameKey) (ops : List Op) (sp : UUID) (id : UUID) :
-    id ∈ scopesForScopeSpec (run H State.empty ops) sp ↔
-      ∃ sc ∈ (run H State.empty ops).scopes, sc.id = id ∧ sc.spec = sp := by
-  have h := idxExact_iff.mp ((refInv_reachable H ops).1).specScope sp id
+theorem scopesForScopeSpec_exact (B : Addr → Addr) (H : String → NameKey) (ops : List Op) (sp : UUID) (id : UUID) :
+    id ∈ scopesForScopeSpec (run B H State.empty ops) sp ↔
+      ∃ sc ∈ (run B H State.empty ops).scopes, sc.id = id ∧ sc.spec = sp := by
+  have h := idxExact_iff.mp ((refInv_reachable B H ops).1).specScope sp id
   simp only [scopesForScopeSpec, List.mem_map, List.mem_filter, decide_eq_true_eq, Prod.exists]
   constructor
   · rintro ⟨a', id', ⟨hm, rfl⟩, rfl⟩
@@ -133,24 +243,39 @@ theorem scopesForScopeSpec_exact (H : String → NameKey) (ops : List Op) (sp : 
   · rintro ⟨sc, hsc, e, rfl⟩
     exact ⟨sc.spec, id, ⟨h.mpr ⟨sc, hsc, e, by simp⟩, rfl⟩, rfl⟩
 
-/-- The by-owner lookup lists exactly the scope specifications whose stored owners name the address. -/
-theorem scopeSpecsForOwner_exact (H : String → NameKey) (ops : List Op) (a : Addr) (id : UUID) :
-    id ∈ scopeSpecsForOwner (run H State.empty ops) a ↔
-      ∃ sp ∈ (run H State.empty ops).scopeSpecs, sp.id = id ∧ a ∈ sp.owners := by
-  have h := idxExact_iff.mp ((refInv_reachable H ops).1).ownerScopeSpec a id
+/-- The by-owner lookup of an account lists ONLY scope specifications one of whose stored owner
+texts denotes the account (nothing stale) — after every history. -/
+theorem scopeSpecsForOwner_sound (B : Addr → Addr) (H : String → NameKey) (ops : List Op) (acct : Addr) (id : UUID)
+    (hid : id ∈ scopeSpecsForOwner (run B H State.empty ops) acct) :
+    ∃ sp ∈ (run B H State.empty ops).scopeSpecs, sp.id = id ∧ ∃ a ∈ sp.owners, B a = acct := by
+  simp only [scopeSpecsForOwner, List.mem_map, List.mem_filter, decide_eq_true_eq, Prod.exists] at hid
+  obtain ⟨a', id', ⟨hm, rfl⟩, rfl⟩ := hid
+  obtain ⟨sp, hsp, e, hb⟩ := ((refInv_reachable B H ops).1).ownerScopeSpec _ hm
+  exact ⟨sp, hsp, e, by simpa using hb⟩
+
+/-- PARTIAL (full statement false: `scopeSpecsForOwner_incomplete_witness`; missing: histories
+that re-spell a specification owner).  For histories that use one spelling per account in
+specification owners, the by-owner lookup lists exactly the scope specifications whose stored
+owners name the account. -/
+theorem scopeSpecsForOwner_exact_partial (B : Addr → Addr) (H : String → NameKey) (P : Addr → Prop)
+    (hinj : ∀ a a', P a → P a' → B a = B a' → a = a') (ops : List Op)
+    (hops : ∀ op ∈ ops, ∀ a ∈ op.specOwnerTexts, P a) (acct : Addr) (id : UUID) :
+    id ∈ scopeSpecsForOwner (run B H State.empty ops) acct ↔
+      ∃ sp ∈ (run B H State.empty ops).scopeSpecs, sp.id = id ∧ ∃ a ∈ sp.owners, B a = acct := by
+  have h := idxExact_iff.mp (ownerLookups_exact_partial B H P hinj ops hops).1 acct id
   simp only [scopeSpecsForOwner, List.mem_map, List.mem_filter, decide_eq_true_eq, Prod.exists]
   constructor
   · rintro ⟨a', id', ⟨hm, rfl⟩, rfl⟩
-    exact h.mp hm
+    simpa using h.mp hm
   · intro hx
-    exact ⟨a, id, ⟨h.mpr hx, rfl⟩, rfl⟩
+    exact ⟨acct, id, ⟨h.mpr (by simpa using hx), rfl⟩, rfl⟩
 
 /-- The by-contract-specification lookup lists exactly the scope specifications whose stored
 contract-specification list contains it. -/
-theorem scopeSpecsForContractSpec_exact (H : String → NameKey) (ops : List Op) (c : UUID) (id : UUID) :
-    id ∈ scopeSpecsForContractSpec (run H State.empty ops) c ↔
-      ∃ sp ∈ (run H State.empty ops).scopeSpecs, sp.id = id ∧ c ∈ sp.cspecs := by
-  have h := idxExact_iff.mp ((refInv_reachable H ops).1).cspecScopeSpec c id
+theorem scopeSpecsForContractSpec_exact (B : Addr → Addr) (H : String → NameKey) (ops : List Op) (c : UUID) (id : UUID) :
+    id ∈ scopeSpecsForContractSpec (run B H State.empty ops) c ↔
+      ∃ sp ∈ (run B H State.empty ops).scopeSpecs, sp.id = id ∧ c ∈ sp.cspecs := by
+  have h := idxExact_iff.mp ((refInv_reachable B H ops).1).cspecScopeSpec c id
   simp only [scopeSpecsForContractSpec, List.mem_map, List.mem_filter, decide_eq_true_eq, Prod.exists]
   constructor
   · rintro ⟨a', id', ⟨hm, rfl⟩, rfl⟩
@@ -158,26 +283,40 @@ theorem scopeSpecsForContractSpec_exact (H : String → NameKey) (ops : List Op)
   · intro hx
     exact ⟨c, id, ⟨h.mpr hx, rfl⟩, rfl⟩
 
-/-- The by-owner lookup lists exactly the contract specifications whose stored owners name the
-address. -/
-theorem contractSpecsForOwner_exact (H : String → NameKey) (ops : List Op) (a : Addr) (id : UUID) :
-    id ∈ contractSpecsForOwner (run H State.empty ops) a ↔
-      ∃ sp ∈ (run H State.empty ops).contractSpecs, sp.id = id ∧ a ∈ sp.owners := by
-  have h := idxExact_iff.mp ((refInv_reachable H ops).1).ownerCSpec a id
+/-- The by-owner lookup of an account lists ONLY contract specifications one of whose stored
+owner texts denotes the account (nothing stale) — after every history. -/
+theorem contractSpecsForOwner_sound (B : Addr → Addr) (H : String → NameKey) (ops : List Op) (acct : Addr) (id : UUID)
+    (hid : id ∈ contractSpecsForOwner (run B H State.empty ops) acct) :
+    ∃ sp ∈ (run B H State.empty ops).contractSpecs, sp.id = id ∧ ∃ a ∈ sp.owners, B a = acct := by
+  simp only [contractSpecsForOwner, List.mem_map, List.mem_filter, decide_eq_true_eq, Prod.exists] at hid
+  obtain ⟨a', id', ⟨hm, rfl⟩, rfl⟩ := hid
+  obtain ⟨sp, hsp, e, hb⟩ := ((refInv_reachable B H ops).1).ownerCSpec _ hm
+  exact ⟨sp, hsp, e, by simpa using hb⟩
+
+/-- PARTIAL (full statement false: `contractSpecsForOwner_incomplete_witness`; missing: histories
+that re-spell a specification owner).  For histories that use one spelling per account in
+specification owners, the by-owner lookup lists exactly the contract specifications whose stored
+owners name the account. -/
+theorem contractSpecsForOwner_exact_partial (B : Addr → Addr) (H : String → NameKey) (P : Addr → Prop)
+    (hinj : ∀ a a', P a → P a' → B a = B a' → a = a') (ops : List Op)
+    (hops : ∀ op ∈ ops, ∀ a ∈ op.specOwnerTexts, P a) (acct : Addr) (id : UUID) :
+    id ∈ contractSpecsForOwner (run B H State.empty ops) acct ↔
+      ∃ sp ∈ (run B H State.empty ops).contractSpecs, sp.id = id ∧ ∃ a ∈ sp.owners, B a = acct := by
+  have h := idxExact_iff.mp (ownerLookups_exact_partial B H P hinj ops hops).2 acct id
   simp only [contractSpecsForOwner, List.mem_map, List.mem_filter, decide_eq_true_eq, Prod.exists]
   constructor
   · rintro ⟨a', id', ⟨hm, rfl⟩, rfl⟩
-    exact h.mp hm
+    simpa using h.mp hm
   · intro hx
-    exact ⟨a, id, ⟨h.mpr hx, rfl⟩, rfl⟩
+    exact ⟨acct, id, ⟨h.mpr (by simpa using hx), rfl⟩, rfl⟩
 
 /-- The by-value-owner lookup only lists existing scopes, and a scope is listed for at most one
 address. -/
-theorem scopesForValueOwner_sound (H : String → NameKey) (ops : List Op) (a b : Addr) (id : UUID)
-    (ha : id ∈ scopesForValueOwner (run H State.empty ops) a) :
-    (∃ sc ∈ (run H State.empty ops).scopes, sc.id = id) ∧
-    (id ∈ scopesForValueOwner (run H State.empty ops) b → a = b) := by
-  have h := (refInv_reachable H ops).1
+theorem scopesForValueOwner_sound (B : Addr → Addr) (H : String → NameKey) (ops : List Op) (a b : Addr) (id : UUID)
+    (ha : id ∈ scopesForValueOwner (run B H State.empty ops) a) :
+    (∃ sc ∈ (run B H State.empty ops).scopes, sc.id = id) ∧
+    (id ∈ scopesForValueOwner (run B H State.empty ops) b → a = b) := by
+  have h := (refInv_reachable B H ops).1
   simp only [scopesForValueOwner, List.mem_map, List.mem_filter, decide_eq_true_eq] at ha ⊢
   obtain ⟨p, ⟨hp, rfl⟩, rfl⟩ := ha
   refine ⟨h.voScope p hp, ?_⟩
@@ -188,8 +327,8 @@ theorem scopesForValueOwner_sound (H : String → NameKey) (ops : List Op) (a b 
 /-! ### removal guards: a specification in use is not removed -/
 
 /-- A scope specification named by a stored scope cannot be deleted (on any reachable state). -/
-theorem scopeSpec_in_use_not_removed (st st' : State) (id : UUID) (h : PvModel.MdStore.Inv st)
-    (hr : deleteScopeSpecification st id = .ok st') : ∀ sc ∈ st.scopes, sc.spec ≠ id := by
+theorem scopeSpec_in_use_not_removed (B : Addr → Addr) (st st' : State) (id : UUID) (h : PvModel.MdStore.Inv B st)
+    (hr : deleteScopeSpecification B st id = .ok st') : ∀ sc ∈ st.scopes, sc.spec ≠ id := by
   intro sc hsc e
   simp only [deleteScopeSpecification, removeScopeSpecification] at hr
   split at hr
@@ -202,8 +341,8 @@ theorem scopeSpec_in_use_not_removed (st st' : State) (id : UUID) (h : PvModel.M
       exact hu _ this e
 
 /-- A contract specification listed by a stored scope specification cannot be deleted. -/
-theorem contractSpec_in_use_not_removed (st st' : State) (id : UUID) (h : PvModel.MdStore.Inv st)
-    (hr : deleteContractSpecification st id = .ok st') : ∀ sp ∈ st.scopeSpecs, id ∉ sp.cspecs := by
+theorem contractSpec_in_use_not_removed (B : Addr → Addr) (st st' : State) (id : UUID) (h : PvModel.MdStore.Inv B st)
+    (hr : deleteContractSpecification B st id = .ok st') : ∀ sp ∈ st.scopeSpecs, id ∉ sp.cspecs := by
   intro sp hsp e
   simp only [deleteContractSpecification, removeContractSpecification] at hr
   split at hr
@@ -273,8 +412,8 @@ theorem record_move_removes_emptied_session (H : String → NameKey) (st st' : S
 
 /-- `DeleteScope` leaves nothing of the scope: no scope entry, no session, no record, no entry in
 the by-address and by-specification lookups, no value-owner coin, no net asset value. -/
-theorem deleteScope_removes_everything (st st' : State) (id : UUID) (h : PvModel.MdStore.Inv st)
-    (hr : deleteScope st id = .ok st') : ScopeGone st' id := by
+theorem deleteScope_removes_everything (B : Addr → Addr) (st st' : State) (id : UUID) (h : PvModel.MdStore.Inv B st)
+    (hr : deleteScope B st id = .ok st') : ScopeGone st' id := by
   simp only [deleteScope, deleteScopeWith] at hr
   split at hr
   · cases hr
@@ -287,14 +426,14 @@ theorem deleteScope_removes_everything (st st' : State) (id : UUID) (h : PvModel
 /-- HISTORICAL NEGATION WITNESS (code before ab8bb51a7): after `DeleteScope s1` in
 `orphanWitness` a session of `s1` was still stored. -/
 theorem deleteScope_leaves_recordless_session_before_fix :
-    ¬ ScopeGone (runPreFix id State.empty orphanWitness) "s1" := by decide
+    ¬ ScopeGone (runPreFix id id State.empty orphanWitness) "s1" := by decide
 
 /-- on the current code the same history leaves nothing of `s1` -/
-theorem orphanWitness_scope_gone : ScopeGone (run id State.empty orphanWitness) "s1" := by decide
+theorem orphanWitness_scope_gone : ScopeGone (run id id State.empty orphanWitness) "s1" := by decide
 
 /-- a rejected operation changes nothing -/
-theorem rejected_op_changes_nothing (H : String → NameKey) (st : State) (op : Op) (e : Err)
-    (hr : applyOp H st op = .error e) : stepWith removeScope H st op = st := by
+theorem rejected_op_changes_nothing (B : Addr → Addr) (H : String → NameKey) (st : State) (op : Op) (e : Err)
+    (hr : applyOp B H st op = .error e) : stepWith B (removeScope B) H st op = st := by
   unfold stepWith
   unfold applyOp at hr
   rw [hr]
@@ -311,13 +450,32 @@ def sampleHistory : List Op := [
   .writeRecord ⟨"s1", "x1"⟩ "n1" none,
   .writeRecord ⟨"s1", "x2"⟩ "n1" none ]
 
-example : (run id State.empty sampleHistory).records.map (·.session) = [⟨"s1", "x2"⟩] ∧
-    (run id State.empty sampleHistory).sessions.map (·.id) = [⟨"s1", "x2"⟩] ∧
-    scopesForAddress (run id State.empty sampleHistory) "C" = ["s1"] ∧
-    scopesForValueOwner (run id State.empty sampleHistory) "D" = ["s1"] ∧
-    (run id State.empty sampleHistory).navs = [("s1", "usd")] := by decide
+example : (run id id State.empty sampleHistory).records.map (·.session) = [⟨"s1", "x2"⟩] ∧
+    (run id id State.empty sampleHistory).sessions.map (·.id) = [⟨"s1", "x2"⟩] ∧
+    scopesForAddress (run id id State.empty sampleHistory) "C" = ["s1"] ∧
+    scopesForValueOwner (run id id State.empty sampleHistory) "D" = ["s1"] ∧
+    (run id id State.empty sampleHistory).navs = [("s1", "usd")] := by decide
 
-example : ScopeGone (run id State.empty (sampleHistory ++ [.deleteScope "s1"])) "s1" ∧
-    (run id State.empty sampleHistory).scopes.map (·.id) = ["s1"] := by decide
+example : ScopeGone (run id id State.empty (sampleHistory ++ [.deleteScope "s1"])) "s1" ∧
+    (run id id State.empty sampleHistory).scopes.map (·.id) = ["s1"] := by decide
+
+/-- two spellings of one account in a scope (`witnessB`: `A^` is account `A`): the data-access
+text `A^` is added and removed again while the owner text `A` stays — account `A` keeps `s1` in
+its by-address lookup; after the owner is re-spelled too it still does -/
+def spellingHistory : List Op := [
+  .writeContractSpec { id := "c1", owners := ["A"] },
+  .writeScopeSpec { id := "p1", owners := ["A"], cspecs := ["c1"] },
+  .writeScope { id := "s1", spec := "p1", owners := ["A"], dataAccess := [] } "" 0,
+  .addDataAccess "s1" ["A^"],
+  .delDataAccess "s1" ["A^"],
+  .addOwners "s1" ["A^"],
+  .delOwners "s1" ["A"] ]
+
+example : scopesForAddress (run witnessB id State.empty (spellingHistory.take 4)) "A" = ["s1"] ∧
+    ((run witnessB id State.empty (spellingHistory.take 4)).scopes.map (·.dataAccess)) = [["A^"]] ∧
+    scopesForAddress (run witnessB id State.empty (spellingHistory.take 5)) "A" = ["s1"] ∧
+    ((run witnessB id State.empty (spellingHistory.take 5)).scopes.map (·.owners)) = [["A"]] ∧
+    scopesForAddress (run witnessB id State.empty spellingHistory) "A" = ["s1"] ∧
+    ((run witnessB id State.empty spellingHistory).scopes.map (·.owners)) = [["A^"]] := by decide
 
 end PvProofs.C14
